@@ -87,7 +87,11 @@ func (d *Driver) sendRPC(
 			time.Sleep(5 * time.Microsecond) //nolint: mnd
 		}
 
-		done <- data
+		select {
+		case done <- data:
+		case <-ctx.Done():
+			// the caller has already left (timeout or error): nobody receives any more
+		}
 	}()
 
 	timer := time.NewTimer(d.Channel.GetTimeout(op.Timeout))
